@@ -144,6 +144,7 @@ def c05(ctx, v):
 
 
 def c06(ctx, v):
+    representation(ctx, v)   # `len()`, `pop*` and the sifts work on the tables: they must be mutually consistent
     M.r_side(ctx, v)
     I.r_esi(ctx, v, only_types=lambda T_: T_.endswith("IntoSortedIter"), key_floor=1)
     # sorted consumption is pop after pop: the heap-order rules of C01/C02 are necessary conditions of C06
@@ -216,6 +217,7 @@ def c12(ctx, v):
 
 def c13(ctx, v):
     fixture_once(ctx, ["R-SELFMADE"])
+    representation(ctx, v)   # the sorted iterators report the queue's length: `size` must agree with the tables
     I.r_selfmade(ctx, v)
     I.r_esi(ctx, v, only_types=lambda T_: not T_.endswith("IterMut"), key_floor=4)
     I.r_wiring_all(ctx, v)
@@ -223,8 +225,9 @@ def c13(ctx, v):
 
 
 def c14(ctx, v):
-    fixture_once(ctx, ["R-CAPFWD"])
+    fixture_once(ctx, ["R-CAPFWD", "R-NOHASH"])
     D.r_eqfoot(ctx, v)
+    D.r_nohash(ctx, v)        # "regardless of ... hasher state": nothing in the crate looks at a hash or at the hasher
     D.r_capinvisible(ctx, v)   # a clone does not keep the capacity: nothing may depend on it
 
 
@@ -232,6 +235,10 @@ def c15(ctx, v):
     if v.config != "serde":
         return
     M.r_serde(ctx, v)
+    # "gives a queue equal to the original": equality is the map's; "never panics": the reader's own arithmetic / accesses
+    D.r_eqfoot(ctx, v)
+    if B:
+        B.r_bounds(ctx, v, only=lambda f: "serde" in f.key or "Deserialize" in f.key or "Serialize" in f.key)
     only = lambda root, d: "Deserialize" in root.key
     O.r_restore(ctx, v, PQ, only=only)
     O.r_restore(ctx, v, DPQ, only=only)
@@ -353,7 +360,9 @@ PROPS = {
             "trusted": [TRUST_RUSTC, "indexmap PartialEq is set equality of (key,value) pairs"], "assumptions": []},
     "C15": {"rules": [c15], "explanation":
             "serde configuration: R-SERDE (writer and reader use a sequence of (item, priority) pairs of the same arity and order; both queue kinds "
-            "delegate to Store's impls), R-GROW on visit_seq (tables grow only for a new key), R-RESTORE on both Deserialize impls (heap_build).",
+            "delegate to Store's impls; the reader writes no map entry but the pair just read), R-GROW on visit_seq (tables grow only for a new "
+            "key), R-RESTORE on both Deserialize impls (heap_build), R-BOUNDS on the serde code (no panicking arithmetic / access: "
+            "deserialization is total), R-EQFOOT (what 'equal to the original' means).",
             "trusted": [TRUST_RUSTC, "serde data model"], "assumptions": ["value equality of a round trip is not decided"]},
     "C16": {"rules": [c16], "explanation":
             "R-RESET: Store::drain and Store::clear empty heap, qp, size and map on every normal path; in drain the three table resets dominate the "
